@@ -23,15 +23,22 @@ def build(ctx: Ctx, n_des: int):
     """a deep AHB whose free-text elements carry pairwise different inputs and format constraints"""
     rng = ctx.rng
     counter = [0]
+    used = []
 
     def de():
         counter[0] += 1
         k = counter[0]
         keys = rng.sample(["950", "951", "952", "953"], rng.randint(1, 3))
+        if rng.random() < 0.3:  # the plain (non-async) evaluation methods
+            keys[rng.randrange(len(keys))] = rng.choice(["954", "955"])
         cond = (" " + rng.choice(["U", "O", "X"]) + " ").join(f"[{x}]" for x in keys)
         if rng.random() < 0.4:
             cond = f"[{rng.choice('123')}]" + (f"[{keys[0]}]" if len(keys) == 1 else f"({cond})")
         inp = None if rng.random() < 0.15 else ("" if rng.random() < 0.05 else f"in{k}")
+        if inp and used and rng.random() < 0.25:
+            inp = rng.choice(used)  # two elements may carry the same text (and must then get the same verdicts, each its own)
+        elif inp:
+            used.append(inp)
         if inp and rng.random() < 0.3:  # inputs are checked as entered: padding, blanks only, upper case, inner blanks are part of the text
             inp = rng.choice([f" in{k}", f"in{k} ", f"\tin{k}\n", " " * (k + 1), f"IN{k}", f"in {k}", f"in{k}\u00a0"])
         return {"t": "free", "disc": f"ft{k}", "expr": {"parts": [[rng.choice(["X", "MUSS"]), rng.choice(["X", "Muss"]), cond]]}, "input": inp, "vtype": "TEXT"}
@@ -68,12 +75,12 @@ def make_evaluator():
             from ahbicht.content_evaluation import fc_evaluators
             in_context = fc_evaluators.text_to_be_evaluated_by_format_constraint.get()
             return EvaluatedFormatConstraint(format_constraint_fulfilled=False, error_message=f"saw:{entered_input}#saw:{in_context}#")
-        if key in ("951", "953"):
+        if key in ("954", "955"):
             method = sync_method
         method.__name__ = f"evaluate_{key}"
         return method
 
-    for key in ("950", "951", "952", "953"):
+    for key in ("950", "951", "952", "953", "954", "955"):
         setattr(YieldingFc, f"evaluate_{key}", mk(key))
     return YieldingFc()
 
@@ -154,7 +161,7 @@ def run(ctx: Ctx) -> None:
     from ahbicht.models.validation_values import RequirementValidationValue as R
     from ahbicht.validation.validation import validate_data_element_freetext
 
-    ctx.rule = ("deep AHBs with 2-30 free-text elements carrying pairwise different inputs (some absent/empty) and 1-3 format keys each; format evaluators (two async ones that yield, two plain ones that also read the context variable themselves) that yield "
+    ctx.rule = ("deep AHBs with 2-30 free-text elements carrying mostly different inputs (some absent / empty / padded / equal to another element's) and 1-3 format keys each; format evaluators (four async ones that yield, two plain ones that also read the context variable themselves) that yield "
                 "0-4 times per call under 10/60 schedules; every element's result compared with validating it alone; one traced run per AHB decided by the Lean driver; "
                 "distinct = (AHB, schedule)")
     ctx.coverage["generated_changed"] = extract.regenerate([])
